@@ -184,3 +184,53 @@ func ZZ_C16_ConcurrentCallers() {
 	verifAssert(f.open() == 0, "after Close every socket ever opened is closed")
 	verifCover("done")
 }
+
+// Close arrives while a (re)connection attempt is still shaking hands - at
+// the very first connection of a lazy client or after a loss. Whichever of the
+// two finishes first, once both have returned no transport socket is open,
+// and later calls fail as closed without touching the configuration.
+//
+//verif:harness kind=api replay=interp unwind=64 preempt=1 bound=one-handshake-in-flight,first-connect-or-reconnect,one-preemption
+func ZZ_C16_CloseDuringHandshake() {
+	zzServer.header = http.Header{"Hysteria-Udp": []string{"false"}}
+	zzServer.status = 233
+	f := &zzFactory{}
+	configCalls := 0
+	afterLoss := verifChoice("afterLoss", 2) == 1
+	rc, err := NewReconnectableClient(func() (*Config, error) {
+		configCalls++
+		return &Config{ConnFactory: f, ServerAddr: zzNetAddr{"198.51.100.1:443"}, FastOpen: true}, nil
+	}, nil, !afterLoss)
+	verifAssert(err == nil, "client is created")
+	if afterLoss {
+		// the first connection dies: the failing call reports it, the next one will reconnect
+		zzConn(zzConnList[0]).streamErr = errors.New("connection lost")
+		_, e := rc.TCP("example.com:80")
+		verifAssert(zzIsClosed(e), "the loss is reported")
+		verifCover("after-loss")
+	}
+	zzServer.dialGate = make(chan struct{})
+	var callErr error
+	callDone, closeDone := false, false
+	go func() {
+		_, callErr = rc.TCP("example.com:80")
+		callDone = true
+	}()
+	verifQuiesce()
+	verifAssert(zzServer.dialing == 1, "a handshake is in flight")
+	go func() {
+		rc.Close()
+		closeDone = true
+	}()
+	verifQuiesce()
+	zzServer.dialGate <- struct{}{}
+	verifQuiesce()
+	verifAssert(callDone && closeDone, "both the call and Close return")
+	_ = callErr
+	verifAssert(f.open() == 0, "after Close every socket is closed - also the one whose handshake was in flight")
+	before := configCalls
+	_, e := rc.TCP("example.com:80")
+	verifAssert(zzIsClosed(e) && configCalls == before, "after Close every call fails without reconnecting")
+	zzServer.dialGate = nil
+	verifCover("done")
+}
